@@ -236,6 +236,94 @@ pub fn run(r: &Report) {
         r.sample(sub, json!({"item": medium[medium.len() / 2].diag(), "input_hex": hex(&medium[medium.len() / 2].to_bytes())}));
     }
 
+    // ---- (A') the same operations started in the middle of the input and through a probe
+    {
+        let sub = "mid-stream-and-probe";
+        r.space(
+            sub,
+            true,
+            &format!("all item trees <= 3 nodes (12-leaf alphabet) in shortest heads and with each single width/framing deviation, behind a 1-byte and a 3-byte leading item x suffix in {{none, ff}} x {} operations: the call on a decoder moved to the item, and the same call on `probe()` of that decoder, must give the result of the call on a fresh decoder (value, error class, borrowed-ness) with the position shifted by the lead; the probe must leave its parent in place", ops.len()),
+            2,
+        );
+        let trees = trees_up_to(3, &Alphabet::full());
+        let leads: [&[u8]; 2] = [&[0x05], &[0x82, 0x01, 0x61]];
+        let sufs: [&[u8]; 2] = [&[], &[0xff]];
+        let shards = 256usize.min(trees.len().max(1));
+        mcx::par::run_shards(
+            shards,
+            |s| {
+                let mut evals = 0u64;
+                let mut nontrivial = 0u64;
+                let mut encs = 0u64;
+                let mut i = s;
+                while i < trees.len() {
+                    for v in deviations_up_to(&trees[i], 1, true, false) {
+                        let enc = v.to_bytes();
+                        encs += 1;
+                        for op in &ops {
+                            for suf in sufs {
+                                let mut plain = enc.clone();
+                                plain.extend_from_slice(suf);
+                                mcx::slot::case(op.name, &plain);
+                                let base = match mcx::par::guard(|| (op.run)(&plain, 0)) {
+                                    Ok(o) => o,
+                                    Err(_) => continue, // judged by sub-space A
+                                };
+                                for lead in leads {
+                                    let mut b = lead.to_vec();
+                                    b.extend_from_slice(&plain);
+                                    for probe in [false, true] {
+                                        evals += 1;
+                                        mcx::slot::case(op.name, &b);
+                                        let got = mcx::par::guard(|| {
+                                            set_via_probe(probe);
+                                            let o = (op.run)(&b, lead.len());
+                                            set_via_probe(false);
+                                            o
+                                        });
+                                        set_via_probe(false);
+                                        let how = if probe { "on probe() of a decoder at that position" } else { "on a decoder moved to that position" };
+                                        match got {
+                                            Ok(o) => {
+                                                if o.res.is_ok() {
+                                                    nontrivial += 1;
+                                                }
+                                                let same = match (&o.res, &base.res) {
+                                                    (Ok(a), Ok(b)) => match &op.kind {
+                                                        OpKind::Shaped(sh) => model_eq(&canon(sh, a), &canon(sh, b)),
+                                                        _ => a == b,
+                                                    },
+                                                    (Err(a), Err(b)) => a == b,
+                                                    _ => false,
+                                                };
+                                                if !same || o.pos != base.pos + lead.len() || o.borrowed_inside != base.borrowed_inside {
+                                                    r.fail(
+                                                        sub,
+                                                        None,
+                                                        json!({"op": op.name, "input_hex": hex(&b), "start": lead.len(), "item": v.diag(), "via_probe": probe}),
+                                                        format!("{}: {:?} at position {} (borrowed inside the input: {:?}); on a fresh decoder over the item alone: {:?} at position {} (+{}) ({:?})", how, o.res.as_ref().map(|m| m.diag()), o.pos, o.borrowed_inside, base.res.as_ref().map(|m| m.diag()), base.pos, lead.len(), base.borrowed_inside),
+                                                    );
+                                                }
+                                            }
+                                            Err(p) => r.fail(sub, None, json!({"op": op.name, "input_hex": hex(&b), "start": lead.len(), "item": v.diag(), "via_probe": probe}), format!("{}: panicked: {}", how, p)),
+                                        }
+                                    }
+                                }
+                            }
+                        }
+                    }
+                    i += shards;
+                }
+                r.add(sub, evals, nontrivial);
+                r.add_states(sub, encs, evals);
+                r.outcome(sub, "Ok on both", nontrivial);
+                r.outcome(sub, "error on both", evals - nontrivial);
+            },
+            crate::hang_handler(r.property.clone()),
+        );
+        r.sample(sub, json!({"input_hex": "05 8101", "start": 1, "op": "array_iter()", "via_probe": true}));
+    }
+
     // ---- (B) type-directed re-framings
     {
         let sub = "B-type-directed";
